@@ -26,7 +26,7 @@ A_START, A_STEP, A_AWAIT, A_AWAITCALL, A_NOP = 11, 12, 13, 14, 15
 
 HEADER = '''\
 import functools as _functools
-from dst.world.rt import R as _R, P as _P, M as _M, Q as _Q, H as _H, RUN as _RUN, E0 as _E0, SUSP as _SUSP
+from dst.world.rt import R as _R, P as _P, M as _M, Q as _Q, H as _H, RUN as _RUN, E0 as _E0, SUSP as _SUSP, RND as _RND
 
 _OFF = globals().get("_OFF", 0)  # fid offset: non-zero only in a twin copy of this module (same source, other file)
 
@@ -189,6 +189,8 @@ def render_body(f, ind, is_method_with_super=False):
     L.append(f"{j}        if not _op[4]:")
     L.append(f"{j}            _RUN.discard(_op[1]); raise")
     L.append(f"{j}    _RUN.discard(_op[1])")
+    L.append(f"{j}elif _k == 17:")
+    L.append(f"{j}    _R((\"RND\", _c, _RND()))")
     if f["fid"] == 0:
         L.append(f"{j}elif _k == 16:")
         L.append(f"{j}    _op[1]()")
